@@ -9,6 +9,8 @@ EXTENDS Store, Json, SequencesExt
 
 CONSTANTS MaxStmts, MaxRows, MaxFlush, MaxCrash, MaxEvict, EmitOn,
           EmitSel,     \* which completed paths are printed: "all", "crash", "crash-wal", "crash-flush", "error"
+          EmitMod,     \* 1: every selected path is printed; k > 1: each one with probability 1/k (sampling inside TLC,
+                       \* for configurations whose exploration is cheap and whose printing is not)
           BadMode,     \* which invalid rows INSERT/UPDATE may carry: "none", "type-size", "count-range", "all"
           Wheres,      \* WHERE clauses of UPDATE / DELETE (see Store!Match): 0, values, 100 + k for `a >= k`
           DmlTables,   \* tables that INSERT/UPDATE/DELETE address (a subset of Tables, to focus a configuration)
@@ -80,7 +82,7 @@ Selected == CASE EmitSel = "all" -> TRUE
               [] EmitSel = "crash-wal" -> \E i \in 1..Len(hist') : hist'[i].a = "crash" /\ hist'[i].at = "wal"
               [] EmitSel = "crash-flush" -> \E i \in 1..Len(hist') : hist'[i].a = "crash" /\ hist'[i].at = "flush"
               [] EmitSel = "error" -> out'.k = "error"
-Emit == (EmitOn /\ out'.k # "none" /\ Selected) =>
+Emit == (EmitOn /\ out'.k # "none" /\ Selected /\ (EmitMod = 1 \/ RandomElement(1..EmitMod) = 1)) =>
           PrintT(<<"SCN", ToJson([steps |-> hist', out |-> out'.k,
                                   abs |-> AbsOut(abs'),
                                   allowed |-> IF out'.k \in {"recovered", "lost", "dead"}
